@@ -24,6 +24,13 @@ CONNSET_ASBUILT = dict(CanonOnAdd='TRUE', CanonOnUnion='TRUE', AddSkipsWhenAll='
                        SubtractChecksContained='TRUE', IsAllByRangeOnly='TRUE', IntersectDropsEmpty='TRUE')
 
 
+DIFFMERGE_ASBUILT = dict(KeyHasBothConns='TRUE', KeySeparated='TRUE', SecondFromOwn='TRUE', MergeTouching='TRUE')
+
+
+def diffmerge_trace_cfg(N):
+    return write_cfg('DiffMergeTrace_N%d.cfg' % N, dict(DIFFMERGE_ASBUILT, N=N), spec='TSpec', extra='POSTCONDITION TraceAccepted')
+
+
 def connset_trace_cfg(M, NR):
     return write_cfg('ConnSetTrace_M%d_NR%d.cfg' % (M, NR), dict(CONNSET_ASBUILT, M=M, NR=NR), spec='TSpec', extra='POSTCONDITION TraceAccepted')
 
